@@ -237,9 +237,15 @@ fn scenario_cov(name: &str, bound: usize, scratch: PathBuf, setup: Vec<String>, 
                                         // C37: "written to the log … before its submitter is told it succeeded";
                                         // C38: "covered by the log before the commit returns" — the same observation
                                         // contradicts both statements, so it is reported under both properties
+                                        // whose payload should have carried the row? (hook: pages this COMMIT put into its own payload)
+                                        let how = match turdb::verif_hooks::last_commit_payload(&hdb) {
+                                            Some(0) => "empty-payload:pages-taken-by-a-concurrent-commit",
+                                            Some(_) => "own-payload",
+                                            None => "no-commit-record",
+                                        };
                                         for p in ["C37", "C38"] {
                                             icb.event(
-                                                &format!("{p}/{nm}/acknowledged-before-logged"),
+                                                &format!("{p}/{nm}/acknowledged-before-logged/{how}"),
                                                 "a checksum-valid WAL frame containing the committed row exists when COMMIT returns",
                                                 &format!("COMMIT {j} of handle {h} returned Ok; marker {marker} is in none of the {frames} valid frames on disk"),
                                             );
